@@ -12,9 +12,11 @@ import registry
 
 # which claimed checks are expected to look at the code a seed touches (its own property first)
 ALSO = {
-    "C01": ["C01", "C20"], "C02": ["C02"], "C03": ["C12"], "C04": ["C04"], "C05": [], "C06": ["C06"], "C07": ["C07", "C18"], "C08": ["C08"],
-    "C09": ["C12", "C09"], "C10": ["C10"], "C11": ["C11"], "C12": ["C12"], "C13": ["C13"], "C14": [], "C15": ["C15"], "C16": ["C11"],
+    "C01": ["C01", "C20"], "C02": ["C02"], "C03": ["C03", "C12"], "C04": ["C04"], "C05": ["C05"], "C06": ["C06"], "C07": ["C07", "C18"], "C08": ["C08"],
+    "C09": ["C09", "C12"], "C10": ["C10"], "C11": ["C11"], "C12": ["C12"], "C13": ["C13"], "C14": ["C14"], "C15": ["C15"], "C16": ["C11"],
     "C17": ["C17", "C01"], "C18": ["C18"], "C20": ["C20"],
+    # second round (all in src/build.rs): the seeded property's own check, then C05 (the same executor reports races there)
+    "C03b": ["C03"], "C04b": ["C04", "C05"], "C05b": ["C05"], "C09b": ["C09"], "C20b": ["C20"],
 }
 
 
@@ -34,7 +36,7 @@ def main():
         if os.path.exists("/verif/seeded/%s/patch_rebased.diff" % sid):
             patch = "/verif/seeded/%s/patch_rebased.diff" % sid
         prop = sid[:3]
-        checks = [c for c in ALSO.get(prop, [prop]) if c in registry.CLAIMED]
+        checks = [c for c in ALSO.get(sid, ALSO.get(prop, [prop])) if c in registry.CLAIMED]
         if not checks:
             summary[sid] = "no claimed check looks at this code (property not claimed)"
             continue
@@ -56,7 +58,10 @@ def main():
         open("/verif/work/seed_results/%s.txt" % sid, "w").write(out_all)
         summary[sid] = "; ".join(verdicts)
         print(sid, summary[sid], flush=True)
-    json.dump(summary, open("/verif/work/seed_results/summary_%s.json" % tier, "w"), indent=1)
+    sp = "/verif/work/seed_results/summary_%s.json" % tier
+    old = json.load(open(sp)) if os.path.exists(sp) else {}
+    old.update(summary)
+    json.dump(old, open(sp, "w"), indent=1)
     for k, v in summary.items():
         print("%-6s %s" % (k, v))
 
